@@ -54,7 +54,7 @@ Proof. unfold abs, taken; cbn. now rewrite find_put_same. Qed.
 Lemma step_abs key s o :
   sp_step (abs key s) o = (abs key (fst (step key s o)), snd (step key s o)).
 Proof.
-  destruct o as [i|i|i secs|ms|v ttl]; cbn [step sp_step].
+  destruct o as [i|i|i secs|ms|v ttl| |i rel r]; cbn [step sp_step].
   - change (ainsts (abs key s)) with (insts s).
     destruct (nth_error (insts s) i) as [l|]; [|reflexivity].
     rewrite acquire_step, a_seen_abs. rewrite Z.ltb_antisym.
@@ -77,6 +77,10 @@ Proof.
   - reflexivity.
   - cbn [fst snd]. unfold abs, store_put, exp_after; cbn. rewrite find_put_same. cbn.
     destruct ttl; reflexivity.
+  - cbn [fst snd]. rewrite a_seen_abs. unfold pttl.
+    destruct (lookup (store s) key) as [[v [t|]]|]; reflexivity.
+  - change (ainsts (abs key s)) with (insts s).
+    destruct (nth_error (insts s) i); reflexivity.
 Qed.
 
 Lemma lock_refines_spec key ops : forall s, run key s ops = sp_run (abs key s) ops.
@@ -104,8 +108,11 @@ Proof.
   destruct H1 as [e1 [A1 B1]]. destruct H2 as [e2 [A2 B2]]. congruence.
 Qed.
 
+Lemma lease_today secs : lease secs = secs * 1000 + 500.
+Proof. unfold lease, millisPerSecond, tolerance. destruct consts_today as [-> ->]. reflexivity. Qed.
+
 Lemma lease_pos secs : 0 <= secs -> (lease secs <=? 0) = false.
-Proof. intro H. unfold lease, millisPerSecond, tolerance. apply Z.leb_gt. lia. Qed.
+Proof. intro H. rewrite lease_today. apply Z.leb_gt. lia. Qed.
 
 Lemma seen_taken key l s : 0 < lease (isecs l) ->
   seen key (mkState (taken key l (store s)) (insts s)) =
@@ -166,12 +173,13 @@ Qed.
 Lemma step_incl key s o :
   expiry_inclusive (store (fst (step key s o))) = expiry_inclusive (store s).
 Proof.
-  destruct o as [i|i|i secs|ms|v ttl]; cbn [step]; try reflexivity.
+  destruct o as [i|i|i secs|ms|v ttl| |i rel r]; cbn [step]; try reflexivity.
   - destruct (nth_error (insts s) i) as [l|]; [|reflexivity]. rewrite acquire_step.
     destruct (lease (isecs l) <=? 0); [reflexivity|].
     destruct (lookup (store s) key) as [e|]; [destruct (bulk_eqb (evalue e) (BStr (iid l)))|]; reflexivity.
   - destruct (nth_error (insts s) i) as [l|]; [|reflexivity]. rewrite release_step.
     destruct (lookup (store s) key) as [e|]; [destruct (bulk_eqb (evalue e) (BStr (iid l)))|]; reflexivity.
+  - destruct (nth_error (insts s) i); reflexivity.
 Qed.
 
 Lemma final_incl key : forall ops s,
@@ -194,6 +202,8 @@ Definition quiet (i : nat) (o : op) : bool :=
   | OSetExpire _ _ => true
   | OAdvance ms => 0 <=? ms
   | OPoke _ _ => false
+  | OTtl => true
+  | OFault _ _ _ => true         (* a faulted call never reaches the store *)
   end.
 
 (* every Acquire/Release of an existing instance in the history was answered (false, nil) *)
@@ -202,6 +212,7 @@ Fixpoint all_refused (n : nat) (ops : list op) (rs : list obs) : Prop :=
   | o :: ops', r :: rs' =>
     match o with
     | OAcquire j | ORelease j => (j < n)%nat -> r = RB false false
+    | OFault j rel rp => (j < n)%nat -> forged_success rel rp = false -> exists e, r = RB false e
     | _ => True
     end /\ all_refused n ops' rs'
   | [], [] => True
@@ -220,10 +231,11 @@ Proof. revert i. induction ls as [|l ls IH]; intro i; destruct i; cbn; auto. Qed
 
 Lemma step_ids key s o : ids (fst (step key s o)) = ids s.
 Proof.
-  unfold ids. destruct o as [i|i|i secs|ms|v ttl]; cbn [step]; try reflexivity.
+  unfold ids. destruct o as [i|i|i secs|ms|v ttl| |i rel r]; cbn [step]; try reflexivity.
   - destruct (nth_error (insts s) i); [|reflexivity]. destruct (acquire key i0 (store s)). reflexivity.
   - destruct (nth_error (insts s) i); [|reflexivity]. destruct (release key i0 (store s)). reflexivity.
   - cbn. apply ids_set_secs.
+  - destruct (nth_error (insts s) i); reflexivity.
 Qed.
 
 Lemma other_id s i j id l :
@@ -250,6 +262,21 @@ Proof.
   cbn. unfold to_uint32. apply Z.mod_pos_bound. lia.
 Qed.
 
+(* a faulted call is answered false unless the forged reply is indistinguishable from success;
+   an error reply is reported as an error *)
+Lemma fault_not_success (rel : bool) r : forged_success rel r = false ->
+  exists e, (if rel then release_reply r else acquire_reply r) = RB false e.
+Proof.
+  destruct rel; cbn.
+  - destruct r as [|z|b|st|e]; cbn; eauto.
+    destruct z as [|p|p]; cbn; eauto. destruct p; cbn; eauto. discriminate.
+  - destruct r as [|z|[z|st]|st|e]; cbn; eauto; intros ->; eauto.
+Qed.
+
+Lemma fault_error_is_error (rel : bool) e :
+  (if rel then release_reply (RErr e) else acquire_reply (RErr e)) = RB false true.
+Proof. destruct rel; reflexivity. Qed.
+
 Definition dt (o : op) : Z := match o with OAdvance ms => ms | _ => 0 end.
 
 Lemma quiet_step key i id T s o :
@@ -260,13 +287,15 @@ Lemma quiet_step key i id T s o :
   secs_ok s' /\ List.length (insts s') = List.length (insts s) /\
   match o with
   | OAcquire j | ORelease j => (j < List.length (insts s))%nat -> snd (step key s o) = RB false false
+  | OFault j rel rp => (j < List.length (insts s))%nat -> forged_success rel rp = false ->
+                       exists e, snd (step key s o) = RB false e
   | _ => True
   end.
 Proof.
   intros ND Hi HS HL Hnow Hq.
   assert (Hseen : lookup (store s) key = Some (mkEntry (BStr id) (Some T))).
   { unfold lookup. rewrite HL. unfold live; cbn. now rewrite before_lt. }
-  destruct o as [j|j|j secs|ms|v ttl]; cbn [quiet] in Hq; cbn [step dt].
+  destruct o as [j|j|j secs|ms|v ttl| |j rel rp]; cbn [quiet] in Hq; cbn [step dt].
   - apply negb_true_iff, Nat.eqb_neq in Hq.
     destruct (nth_error (insts s) j) as [l|] eqn:Hj.
     + rewrite acquire_step, Hseen. cbn [evalue].
@@ -286,6 +315,10 @@ Proof.
     repeat split; auto; try lia. now apply secs_ok_set.
   - cbn [fst snd]. unfold leased, ids, secs_ok in *; cbn. repeat split; auto.
   - discriminate.
+  - cbn [fst snd]. repeat split; auto. lia.
+  - destruct (nth_error (insts s) j) as [l|] eqn:Hj; cbn [fst snd].
+    + repeat split; auto; try lia. intros _ Hf. now apply fault_not_success.
+    + repeat split; auto; try lia. intro Hlt. apply nth_error_None in Hj. lia.
 Qed.
 
 Lemma elapsed_nonneg i ops : forallb (quiet i) ops = true -> 0 <= elapsed ops.
